@@ -7,7 +7,8 @@ Import ListNotations.
 Lemma all_state_items_classified : forallb state_classified state_items = true /\ state_audit_live state_items = true.
 Proof. split; vm_compute; reflexivity. Qed.
 
-Lemma cache_keys_are_pinned : keys_eqb cache_keys pinned_cache_keys = true.
+Lemma cache_keys_are_pinned :
+  keys_eqb cache_keys pinned_cache_keys || keys_eqb cache_keys pinned_cache_keys_after_protocol_fix = true.
 Proof. vm_compute. reflexivity. Qed.
 
 Lemma keys_eqb_eq : forall a b, keys_eqb a b = true -> a = b.
@@ -20,8 +21,8 @@ Proof.
 Qed.
 
 Lemma process_global_caches_are_exactly :
-  map st_name (filter (fun s => match lookup_state s state_audit with Some (SProcessCache _) => true | _ => false end) state_items)
-  = ["_empty_constrained"%string].
+  map st_name (filter (fun s => match lookup_state s (state_audit ++ state_audit_extra)%list with Some (SProcessCache _) => true | _ => false end) state_items)
+  = ["_empty_constrained"; "directory_has_init"; "get_all_error_codes"; "_get_checker"; "_typing_name_cache"]%string.
 Proof. vm_compute. reflexivity. Qed.
 
 Lemma resolution_cache_key_keeps_what_determines_the_result : resolution_key_ok resolution_key_fields = true.
